@@ -256,7 +256,117 @@ def rule_r7(ctx):
         raise Unrecognised("C10.R7", f"{PARSER}:EarleyParser.parse_forest", "forest entries (v, k, chart) not found")
 
 
+def _module_globals_assigned(m):
+    """names assigned by functions through a `global` declaration -> [function nodes]"""
+    out = {}
+    for q, fn in m.functions():
+        for g in [n for n in walk_local(fn) if isinstance(n, ast.Global)]:
+            for nm in g.names:
+                if any(isinstance(x, ast.Name) and x.id == nm and isinstance(x.ctx, ast.Store) for x in walk_local(fn)):
+                    out.setdefault(nm, []).append((q, fn))
+    return out
+
+
+def rule_r8(ctx):
+    """One tokenisation of expansions: every module that splits an expansion into symbols uses the SAME pattern (helpers.RE_NONTERMINAL).  A parser with a pattern of its
+    own reads `<e'>` as terminal text while the rest of the system (grammar graph, fuzzer, is_nonterminal) treats it as a nonterminal: the accepted language changes."""
+    H = "src/isla/helpers.py"
+    hm = ctx.repo.module(H, "C10.R8")
+    ref = hm.constants().get("RE_NONTERMINAL")
+    if not (isinstance(ref, ast.Call) and src(ref.func) == "re.compile" and ref.args and isinstance(ref.args[0], ast.Constant)):
+        raise Unrecognised("C10.R8", f"{H}:RE_NONTERMINAL", "reference pattern is not re.compile(<constant>)")
+    pattern = ref.args[0].value
+    n = 0
+    for rel in (PARSER, "src/isla/fuzzer.py", "src/isla/language.py", "src/isla/existential_helpers.py", "src/isla/mutator.py", "src/isla/solver.py", "src/isla/isla_predicates.py"):
+        if not ctx.repo.exists(rel):
+            continue
+        m = ctx.repo.module(rel, "C10.R8")
+        uses = [x for x in ast.walk(m.tree) if isinstance(x, ast.Name) and x.id == "RE_NONTERMINAL" and isinstance(x.ctx, ast.Load)]
+        if not uses:
+            continue
+        n += 1
+        local = m.constants().get("RE_NONTERMINAL")
+        imported = any(isinstance(i, ast.ImportFrom) and (i.module or "").endswith("helpers") and any(a.name == "RE_NONTERMINAL" and a.asname in (None, "RE_NONTERMINAL") for a in i.names) for i in ast.walk(m.tree))
+        if local is None and imported:
+            ctx.ok("R8-one-tokenisation", f"{rel}:RE_NONTERMINAL", "pattern imported from helpers", site(uses[0]), f"{len(uses)} use(s)")
+        elif local is not None:
+            same = isinstance(local, ast.Call) and src(local.func) == "re.compile" and local.args and isinstance(local.args[0], ast.Constant) and local.args[0].value == pattern and len(local.args) == 1
+            ctx.check(same, "R8-one-tokenisation", f"{rel}:RE_NONTERMINAL", "local pattern identical to helpers.RE_NONTERMINAL", site(local),
+                      f"{rel} splits expansions with its own pattern `{src(local)[:60]}` while helpers.RE_NONTERMINAL is {pattern!r}: a symbol such as <e'> or <cfg.entry> is a nonterminal "
+                      "for the grammar graph, the fuzzer and is_nonterminal but terminal text for this module", "same pattern text")
+        else:
+            raise Unrecognised("C10.R8", f"{rel}:RE_NONTERMINAL", "origin of RE_NONTERMINAL not found")
+    if n < 2:
+        raise Unrecognised("C10.R8", PARSER, f"only {n} modules use RE_NONTERMINAL (expected parser.py and others)")
+    can = ctx.repo.func(PARSER, "canonical", "C10.R8")
+    sp = [x for x in calls_in(can) if isinstance(x.func, ast.Attribute) and x.func.attr == "split"]
+    ok = len(sp) == 1 and src(sp[0].func.value) == "RE_NONTERMINAL" and len(sp[0].args) == 1 and isinstance(sp[0].args[0], ast.Name)
+    if not ok:
+        raise Unrecognised("C10.R8", f"{PARSER}:canonical", "RE_NONTERMINAL.split(expansion) not found")
+    ctx.ok("R8-one-tokenisation", f"{PARSER}:canonical", "expansions split with RE_NONTERMINAL, unchanged", site(sp[0]), src(sp[0]))
+
+
+def rule_r9(ctx):
+    """Terminal text reaches the recogniser verbatim: single_char_tokens spreads each terminal into ITS characters; the input text is scanned character by character
+    without any normalisation, so any transformation of the terminal (case folding, Unicode normalisation, stripping) makes the parser accept another language."""
+    f = ctx.repo.func(PARSER, "single_char_tokens", "C10.R9")
+    c = f"{PARSER}:single_char_tokens"
+    ext = [x for x in calls_in(f) if isinstance(x.func, ast.Attribute) and x.func.attr in ("extend", "append")]
+    loops = [n for n in walk_local(f) if isinstance(n, ast.For) and isinstance(n.target, ast.Name)]
+    tok = loops[-1].target.id if loops else None
+    spread = [x for x in ext if x.func.attr == "extend"]
+    if len(spread) != 1 or tok is None or len(spread[0].args) != 1:
+        raise Unrecognised("C10.R9", c, "terminal spreading `rule_.extend(token)` not found")
+    a = spread[0].args[0]
+    if isinstance(a, ast.Name) and a.id == tok:
+        ctx.ok("R9-terminals-verbatim", c, "terminal characters taken as they are", site(spread[0]), src(spread[0]))
+    elif any(isinstance(x, ast.Name) and x.id == tok for x in ast.walk(a)) and isinstance(a, ast.Call):
+        ctx.viol("R9-terminals-verbatim", c, "terminal characters taken as they are", site(spread[0]),
+                 f"the characters of a terminal are taken from `{' '.join(src(a).split())[:70]}`, not from the terminal itself, while the input is scanned unchanged: "
+                 "a string the grammar spells out is rejected whenever the transformation changes it, and the transformed spelling is accepted instead")
+    else:
+        raise Unrecognised("C10.R9", c, f"spread argument `{src(a)[:60]}` not understood")
+    keep = [x for x in ext if x.func.attr == "append" and x.args and isinstance(x.args[0], ast.Name) and x.args[0].id == tok]
+    ok = any(has_fact(facts(k), f"{tok} in grammar") for k in keep)
+    if not ok:
+        raise Unrecognised("C10.R9", c, "nonterminal tokens `if token in grammar: rule_.append(token)` not found")
+    ctx.ok("R9-terminals-verbatim", c, "nonterminal tokens kept whole", site(keep[0]), f"{tok} in grammar")
+
+
+def rule_r10(ctx):
+    """The grammar conversions of the parser (canonical, single_char_tokens, non_canonical, nullable, ...) are functions of their argument: none of them returns a value it
+    loaded from module-level state that is assigned at run time (a 'last grammar' cache compared by object identity is stale after the dict was edited in place).
+    Expected count on today's tree: zero run-time assigned globals in parser.py."""
+    m = ctx.repo.module(PARSER, "C10.R10")
+    assigned = _module_globals_assigned(m)
+    ctx.inventory["parser_runtime_globals"] = sorted(assigned)
+    n = 0
+    for q, fn in m.functions():
+        if not isinstance(fn, ast.FunctionDef):
+            continue
+        n += 1
+        loads = sorted({x.id for x in walk_local(fn) if isinstance(x, ast.Name) and isinstance(x.ctx, ast.Load) and x.id in assigned})
+        if not loads:
+            continue
+        rets = [r for r in walk_local(fn) if isinstance(r, ast.Return) and r.value is not None]
+        from ..core import origins
+
+        tainted = [r for r in rets if any(g in origins(fn, r.value) for g in loads)]
+        if tainted:
+            idn = [x for x in walk_local(fn) if isinstance(x, ast.Compare) and any(isinstance(o, (ast.Is, ast.IsNot)) for o in x.ops)]
+            ctx.viol("R10-no-hidden-state", f"{PARSER}:{q}", f"result independent of earlier calls (globals {loads})", site(tainted[0]),
+                     f"`{q}` returns a value taken from the module-level variable(s) {loads}, which are assigned at run time"
+                     + (f" and guarded only by object identity (`{' '.join(src(idn[0]).split())[:50]}`)" if idn else "")
+                     + ": after the grammar dict has been edited in place the old conversion is returned, so a new parser accepts the OLD language")
+        else:
+            ctx.note("R10-no-hidden-state", f"{PARSER}:{q}", f"reads run-time globals {loads}", site(fn), "does not flow into a return value")
+    ctx.ok("R10-no-hidden-state", PARSER, "no conversion returns run-time module state", site(m.tree.body[0]), f"{n} functions, run-time assigned globals: {sorted(assigned) or 'none'}")
+
+
 def run(ctx) -> str:
+    ctx.guarded("R8", lambda: rule_r8(ctx))
+    ctx.guarded("R9", lambda: rule_r9(ctx))
+    ctx.guarded("R10", lambda: rule_r10(ctx))
     ctx.guarded("R7", lambda: rule_r7(ctx))
     ctx.guarded("R6", lambda: rule_r6(ctx))
     ctx.guarded("R5", lambda: rule_r5(ctx))
